@@ -181,7 +181,7 @@ class InlineHelper(Edit):
             site = self._site(text)
             if site is None: break
             a, b, argtext = site
-            args = [x.strip() for x in _split_top(argtext, ",", exprs=True) if x.strip()]
+            args = [x.strip() for x in _split_top(_no_comments(argtext), ",", exprs=True) if x.strip()]
             if len(args) != len(self.params): raise ExtractError(f"{ctx}: call of {self.name} with {len(args)} arguments, the helper has {len(self.params)} parameters")
             typed = not any(re.search(r"\bimpl\b", t) for _, t in self.params)
             if not args: bind = ""
@@ -262,6 +262,9 @@ def _strip_nested(text):
         elif kind == "punct" and ch in ")]}": depth -= 1
         elif depth == 0: out.append(ch)
     return " ".join(out)
+
+def _no_comments(text):
+    return "".join(" " if kind == "comment" else text[a:b] for kind, a, b in scan(text))
 
 def _split_top(text, sep, first_only=False, exprs=False):
     """split at `sep` outside brackets, angle brackets, strings and comments (`::` and `->` are not separators / brackets).
@@ -349,6 +352,27 @@ class DebugAsserts(Edit):
         return text
     def describe(self): return f"rewrite: {self.n} x debug_assert!(c) written out as `if !(c) {{ panic!() }}`"
 
+class InlineClosure(Edit):
+    """`let NAME = || BLOCK;` (a closure without parameters, bound once) is removed and every call `NAME()` replaced by BLOCK: the
+    block is evaluated where the closure was called, in the scope the closure captured by reference — the meaning of the calls.
+    (Verus needs a contract on a closure to know anything about its result.)"""
+    kind = "rewrite"
+    def __init__(self, name): self.name, self.n = name, 0
+    def apply(self, text, ctx):
+        m = re.search(r"let\s+" + re.escape(self.name) + r"\s*=\s*\|\|\s*\{", text)
+        if not m: raise ExtractError(f"{ctx}: closure `{self.name}` not found")
+        src = Source(text, ctx)
+        o = next(k for k in src.code if src.toks[k][1] == m.end() - 1)
+        c = src.match[o]
+        block = text[src.toks[o][1]:src.toks[c][2]]
+        end = src.toks[c][2]
+        m2 = re.match(r"\s*;", text[end:])
+        if not m2: raise ExtractError(f"{ctx}: closure `{self.name}` is not bound by a plain let")
+        rest = text[:m.start()] + text[end + m2.end():]
+        self.n = len(re.findall(r"\b" + re.escape(self.name) + r"\(\)", rest))
+        return re.sub(r"\b" + re.escape(self.name) + r"\(\)", lambda _: block, rest)
+    def describe(self): return f"rewrite: closure `{self.name}` (no parameters) inlined at its {self.n} call(s)"
+
 class After(Edit):
     """insert ghost/proof text after the anchor text. optional=True (proof hints only): a missing anchor skips the hint"""
     def __init__(self, anchor, ins, count=1, optional=False):
@@ -378,13 +402,16 @@ class Loop(Edit):
     """loop contract: `header` is the loop header text (up to, not including, its `{`).
     inv is spliced between header and `{`; step (ghost) is spliced at the end of the body and
     before every `continue` that belongs to this loop."""
-    def __init__(self, header, inv, step=None, enter=None):
-        self.header, self.inv, self.step, self.enter = header, inv, step, enter   # enter: ghost text placed at the start of the body
+    def __init__(self, header, inv, step=None, enter=None, nth=None):
+        self.header, self.inv, self.step, self.enter, self.nth = header, inv, step, enter, nth   # enter: ghost text placed at the start of the body; nth: which occurrence of a header that occurs several times
     def apply(self, text, ctx):
         n = text.count(self.header)
-        if n != 1:
+        if (self.nth is None and n != 1) or (self.nth is not None and n <= self.nth):
             raise ExtractError(f"{ctx}: loop header matched {n}x: {self.header[:70]!r}")
-        hpos = text.index(self.header) + len(self.header)
+        hstart = -1
+        for _ in range((self.nth or 0) + 1):
+            hstart = text.index(self.header, hstart + 1)
+        hpos = hstart + len(self.header)
         src = Source(text, ctx)
         # first `{` token after header end
         ob = None
